@@ -133,16 +133,17 @@ def run_check(module, sub, spec):
         r = Result()
         return r.skip("recursion limit")
     except Exception as exc:  # escaped the check function
+        # Explicit HarnessError (above) is the machinery's way to say "bad spec".
+        # Anything else means the code under test produced an object or an
+        # exception the oracle could not even process: recorded as a failure
+        # (on the unchanged tree such a bucket has to be fixed like any other).
         innermost, site = _crash_site(exc)
-        if site is not None and "/verif/" not in innermost:
-            r = Result()
-            r.fail(f"crash:{type(exc).__name__}@{site}",
-                   "".join(traceback.format_exception(exc))[-1200:])
-            return r
-        raise HarnessError(
-            f"check {module.PROP}/{sub} raised inside the harness on "
-            f"{json.dumps(spec, default=repr)[:400]}:\n"
-            + "".join(traceback.format_exception(exc))) from exc
+        r = Result()
+        where = site if site is not None else (
+            "verif:" + os.path.basename(innermost))
+        r.fail(f"crash:{type(exc).__name__}@{where}",
+               "".join(traceback.format_exception(exc))[-1200:])
+        return r
     if res is None:
         res = Result()
     if not isinstance(res, Result):
